@@ -32,8 +32,9 @@ def cases(rng, tier):
         if kind == "y_affine":
             if adaptive:
                 base["y"] = [str(Fraction(int(Fraction(v) * 2))) for v in base["y"]]
-                c["a"] = str(rng.choice([Fraction(2), Fraction(-2), Fraction(1, 2), Fraction(4), Fraction(-1)]))
-                c["b"] = str(Fraction(rng.randint(-8, 8)))
+                c["a"] = str(rng.choice([Fraction(2), Fraction(-2), Fraction(1, 2), Fraction(4), Fraction(-1),
+                                         Fraction(1, 2 ** 40), Fraction(-1, 2 ** 36), Fraction(2 ** 10)]))
+                c["b"] = str(Fraction(rng.choice([rng.randint(-8, 8), 2 ** 20, -2 ** 24, 0])))
             else:
                 a = rng.dyadic(-24, 24, 8)
                 c["a"] = str(a if a != 0 else Fraction(3, 2))
@@ -57,10 +58,10 @@ def variants(c):
     k = c["kind"]
     if k == "y_affine":
         a, bb = Fraction(c["a"]), Fraction(c["b"])
-        out.append({**b, "y": [str(a * v + bb) for v in y]})
+        out.append({**b, "y": [str(Fraction(float(a * v + bb))) for v in y]})
     elif k == "x_affine":
         cc, d = Fraction(c["c"]), Fraction(c["d"])
-        out.append({**b, "x": [str(cc * v + d) for v in x]})
+        out.append({**b, "x": [str(Fraction(float(cc * v + d))) for v in x]})
     elif k == "local":
         y2 = list(y)
         y2[c["q"]] += Fraction(c["delta"])
@@ -69,7 +70,7 @@ def variants(c):
         y3 = [Fraction(v) for v in c["y3"]]
         t = Fraction(c["t"])
         out.append({**b, "y": c["y3"]})
-        out.append({**b, "y": [str(t * u + (1 - t) * v) for u, v in zip(y, y3)]})
+        out.append({**b, "y": [str(Fraction(float(t * u + (1 - t) * v))) for u, v in zip(y, y3)]})
     return out
 
 
